@@ -2,12 +2,15 @@
 """Re-runs every stored seeded change against the current checks and updates seeded/*/meta.json and seeded/SUMMARY.md."""
 import json, os, subprocess, sys, glob, time
 V = "/verif"
-EXTRA = {"C09-B": ["C05"], "C09-r2C": ["C05"], "C10-r2C": ["C09"], "C03-r2C": ["C04"], "C19-r2C": ["C05"]}
+EXTRA = {"C09-B": ["C05"], "C09-r2C": ["C05"], "C10-r2C": ["C09"], "C03-r2C": ["C04"], "C19-r2C": ["C05"], "C06-r3A": ["C16"], "C18-r3A": ["C17"]}
 only = sys.argv[1:]
+import tempfile, shutil, atexit
+SCRATCH = tempfile.mkdtemp(prefix="vsym-seeded-")
+atexit.register(lambda: shutil.rmtree(SCRATCH, ignore_errors=True))
 rows = []
 for d in sorted(glob.glob(V + "/seeded/*/")):
     sid = os.path.basename(d.rstrip("/"))
-    if only and sid not in only:
+    if only and sid not in only and sid.split("-")[0] not in only and not any(o.startswith("r") and ("-"+o) in sid for o in only):
         continue
     meta = json.load(open(d + "meta.json"))
     pid = meta["property"]
@@ -18,7 +21,15 @@ for d in sorted(glob.glob(V + "/seeded/*/")):
     try:
         for p in [pid] + EXTRA.get(sid, []):
             t0 = time.time()
-            r = subprocess.run("bin/vcheck %s quick" % p, shell=True, cwd=V, capture_output=True, text=True, timeout=3600)
+            # evidence/ and replays/ of /verif describe the unchanged tree: the runs
+            # against a changed /repo write to a scratch directory; the remaining
+            # harness files are skipped once one has fired (a run that does not
+            # end in a reproduced violation is repeated in full)
+            env = dict(os.environ, VSYM_SCRATCH=SCRATCH, VSYM_FIRST_VIOLATION="1")
+            r = subprocess.run("bin/vcheck %s quick" % p, shell=True, cwd=V, capture_output=True, text=True, timeout=3600, env=env)
+            if r.returncode != 1:
+                env.pop("VSYM_FIRST_VIOLATION")
+                r = subprocess.run("bin/vcheck %s quick" % p, shell=True, cwd=V, capture_output=True, text=True, timeout=3600, env=env)
             lines = [l for l in r.stdout.splitlines() if l.startswith(("VIOLATION", "INCONCLUSIVE", "  replay", "  obligation"))]
             res[p] = {"exit": r.returncode, "wall_s": round(time.time() - t0, 1), "lines": lines[:10]}
     finally:
